@@ -501,9 +501,17 @@ func (p *untypedParamBinder) setSliceFieldValue(target reflect.Value, defaultVal
 
 	value := reflect.MakeSlice(reflect.SliceOf(target.Type().Elem()), sz, sz)
 
+	var itemFormat string
+	if items := p.parameter.Items; items != nil && value.Type().Elem().Kind() == reflect.String && p.formats.ContainsName(items.Format) {
+		// named string types (strfmt.UUID, ...) unmarshal any text: the format of the items is checked here
+		itemFormat = items.Format
+	}
 	for i := 0; i < sz; i++ {
 		if err := p.setFieldValue(value.Index(i), nil, data[i], hasKey); err != nil {
 			return err
+		}
+		if itemFormat != "" && !p.formats.Validates(itemFormat, data[i]) {
+			return errors.InvalidType(fmt.Sprintf("%s.%d", p.Name, i), p.parameter.In, itemFormat, data[i])
 		}
 	}
 
